@@ -243,6 +243,31 @@ class Inst:
                         val = -val
                     val = z3.simplify(val)
                     cands[k][val.get_id()] = val
+        # range-guard bounds: forall v. (lo <= v and v < hi) -> ...  gives the candidates lo and hi-1 (first / last element facts)
+        if z3.is_implies(body):
+            g = body.children()[0]
+            atoms = list(g.children()) if z3.is_and(g) else [g]
+            for a in atoms:
+                if a.num_args() != 2:
+                    continue
+                l, r = a.children()
+                k = a.decl().kind()
+                for var, other, side in ((l, r, 'L'), (r, l, 'R')):
+                    if not z3.is_var(var) or has_var(other, cache) or not z3.is_int(var):
+                        continue
+                    vi = z3.get_var_index(var)
+                    val = None
+                    if (k == z3.Z3_OP_LE and side == 'R') or (k == z3.Z3_OP_GE and side == 'L'):      # other <= v / v >= other
+                        val = other
+                    elif (k == z3.Z3_OP_LT and side == 'L') or (k == z3.Z3_OP_GT and side == 'R'):    # v < other / other > v
+                        val = other - 1
+                    elif (k == z3.Z3_OP_LE and side == 'L') or (k == z3.Z3_OP_GE and side == 'R'):    # v <= other
+                        val = other
+                    elif (k == z3.Z3_OP_LT and side == 'R') or (k == z3.Z3_OP_GT and side == 'L'):    # other < v
+                        val = other + 1
+                    if val is not None and cands[vi]:
+                        val = z3.simplify(val)
+                        cands[vi][val.get_id()] = val
         return cands
 
     def run(self, timeout_ms=10000):
@@ -342,7 +367,7 @@ def prove(hyps, goal, timeout_ms=10000, rounds=3, want_model=False):
         n_inst = -1
         model = 'instantiation-not-applicable: %s' % e
     # fall-back 1: z3's own quantifier engine
-    fb = min(timeout_ms, 8000)
+    fb = timeout_ms
     s = z3.Solver()
     s.set('timeout', fb)
     s.set('random_seed', 0)
@@ -356,7 +381,13 @@ def prove(hyps, goal, timeout_ms=10000, rounds=3, want_model=False):
         return {'status': 'proved', 'backend': 'cvc5', 'secs': time.time() - t0, 'n_inst': n_inst, 'model': None}
     # 'failed' = not proved with a candidate model: the saturated instance set is satisfiable (never a verdict by itself:
     # the driver replays / searches before reporting).  Solver timeouts stay 'unknown'.
-    return {'status': 'failed' if (r == z3.sat or inst_verdict == 'sat') else 'unknown', 'backend': 'none', 'secs': time.time() - t0, 'n_inst': n_inst,
+    reason = ''
+    try:
+        reason = s.reason_unknown() if r == z3.unknown else ''
+    except Exception:
+        pass
+    gave_up = r == z3.unknown and not any(w in reason for w in ('timeout', 'canceled', 'max.', 'resource', 'interrupted'))
+    return {'status': 'failed' if (r == z3.sat or (inst_verdict == 'sat' and gave_up)) else 'unknown', 'backend': 'none', 'reason_unknown': reason, 'secs': time.time() - t0, 'n_inst': n_inst,
             'model': model}
 
 
